@@ -8,6 +8,7 @@ from hypothesis import strategies as st
 
 from ..core import Info, Reject, close, require, subcheck
 from .. import declm
+from .. import declayout as dl
 
 NEG_INF = float("-inf")
 CAP = 12  # step bound for searches without max_iters (harness guard, see declm.StepCap)
@@ -49,19 +50,29 @@ def _fl(x):
     return float(x)
 
 
-def run_search(case, conds, batch):
-    """Call the real BeamSearch; returns (S, [per element: list of (tokens, len, score)], raw y rows)."""
-    import torch
+def build_search(case, spec=None):
+    """A fresh (HashLM, BeamSearch) pair for the case."""
     from pydrobert.torch.modules import BeamSearch
 
-    spec = case["lm"]
+    spec = spec or case["lm"]
     lm = declm.HashLM(spec, cap=CAP if case["max_iters"] is None else None)
     search = BeamSearch(lm, case["width"], eos=case["eos"], finish_all_paths=case["finish_all"],
                         pad_value=case.get("pad_value", -1))
+    return lm, search
+
+
+def run_search(case, conds, batch, search=None, spec=None):
+    """Call the real BeamSearch; returns (S, [per element: list of (tokens, len, score)]).
+    `search` = an existing module to be used again (call-pattern classes); otherwise a fresh one."""
+    import torch
+
+    if search is None:
+        _, search = build_search(case, spec)
     if case.get("no_init") and batch is None and conds == [0]:
         init = None
     else:
-        init = {"cond": torch.tensor(conds, dtype=torch.long)}
+        # the initial state is handed to the model as it is: any memory layout of it must do
+        init = {"cond": dl.relayout(torch.tensor(conds, dtype=torch.long), case.get("cond_layout", "contiguous"))}
     y, lens, lp = search(init, batch, case["max_iters"])
     W = case["width"]
     if batch is None:
@@ -75,35 +86,41 @@ def run_search(case, conds, batch):
                 "batched result shapes", [list(y.shape), list(lens.shape), list(lp.shape)], [N, W])
     S = y.size(0)
     out = []
+    lens_l, lp_l = lens.tolist(), lp.tolist()
     for n in range(N):
         slots = []
         for k in range(W):
-            L = int(lens[n, k])
-            sc = float(lp[n, k])
-            toks = [int(v) for v in y[: max(0, min(L, S)), n, k]]
+            L = int(lens_l[n][k])
+            sc = float(lp_l[n][k])
+            toks = y[: max(0, min(L, S)), n, k].tolist() if sc > NEG_INF else []
             slots.append((toks, L, sc))
         out.append(slots)
     return S, out
 
 
-def validate_element(case, cond, S, slots, classes):
-    """The statement's validity predicates for one batch element. Returns the finite slots."""
-    spec = case["lm"]
+def validate_element(case, cond, S, slots, classes, spec=None, chain=None, rel=1e-5):
+    """The statement's validity predicates for one batch element. Returns the finite slots.
+    `chain(cond, tokens)` = the from-scratch log-probability of a path (default: declm.py_chain on the case's model)."""
+    spec = spec or case["lm"]
+    if chain is None:
+        def chain(c, toks):
+            return declm.py_chain(spec, c, toks)
     V = spec["V"]
     eos = _norm_eos(case["eos"], V)
     T = case["max_iters"]
     finite = []
     seen_neg_inf = False
     prev_score = math.inf
+    scores = [s[2] for s in slots]
     for k, (toks, L, sc) in enumerate(slots):
         require(not math.isnan(sc), "slot %d has a NaN score" % k, sc, "a number or -inf")
-        require(sc <= prev_score, "scores are not ordered best first (slot %d)" % k, [s[2] for s in slots], "non-increasing")
+        require(sc <= prev_score, "scores are not ordered best first (slot %d)" % k, scores, "non-increasing")
         prev_score = sc
         if sc == NEG_INF:
             seen_neg_inf = True
             continue
         require(sc < math.inf, "slot %d has score +inf" % k, sc, "finite")
-        require(not seen_neg_inf, "finite slot %d after a -inf slot" % k, [s[2] for s in slots], "-inf slots last")
+        require(not seen_neg_inf, "finite slot %d after a -inf slot" % k, scores, "-inf slots last")
         require(0 <= L <= S, "slot %d: reported length outside [0, S]" % k, L, S)
         if T is not None:
             require(L <= T, "slot %d: path longer than max_iters" % k, L, T)
@@ -112,11 +129,11 @@ def validate_element(case, cond, S, slots, classes):
             require(eos not in toks[:-1], "slot %d: eos before the last counted position" % k, toks, eos)
         else:
             require(L == T, "slot %d: without eos every path has max_iters tokens" % k, L, T)
-        exp = declm.py_chain(spec, cond, toks)
-        require(close(sc, exp, rel=1e-5, abs_=2e-5), "slot %d: reported log-probability != chained model log-probability" % k,
+        exp = chain(cond, toks)
+        require(close(sc, exp, rel=rel, abs_=2e-5), "slot %d: reported log-probability != chained model log-probability" % k,
                 sc, {"tokens": toks, "chain": exp})
         finite.append((tuple(toks), sc))
-    require(len(finite) >= 1, "no slot with a finite score", [s[2] for s in slots], ">= 1 finite")
+    require(len(finite) >= 1, "no slot with a finite score", scores, ">= 1 finite")
     paths = [p for p, _ in finite]
     require(len(set(paths)) == len(paths), "a path occurs twice among the finite slots", [list(p) for p in paths], "distinct")
     if eos is not None and T is None:
@@ -138,12 +155,15 @@ def validate_element(case, cond, S, slots, classes):
     return finite
 
 
-def check_exhaustive(case, cond, finite):
-    spec = case["lm"]
+def check_exhaustive(case, cond, finite, spec=None, chain=None):
+    spec = spec or case["lm"]
+    if chain is None:
+        def chain(c, toks):
+            return declm.py_chain(spec, c, toks)
     V = spec["V"]
     eos = _norm_eos(case["eos"], V)
     T = case["max_iters"]
-    exp = {tuple(p): declm.py_chain(spec, cond, p) for p in complete_sequences(V, eos, T)}
+    exp = {tuple(p): chain(cond, p) for p in complete_sequences(V, eos, T)}
     # sequences the model gives probability zero cannot be told from unusable slots (documented)
     exp = {p: v for p, v in exp.items() if v > NEG_INF}
     got = dict(finite)
@@ -153,8 +173,8 @@ def check_exhaustive(case, cond, finite):
         require(close(sc, exp[p], rel=1e-5, abs_=2e-5), "exhaustive regime: score", sc, exp[p])
 
 
-def is_exhaustive_regime(case):
-    V = case["lm"]["V"]
+def is_exhaustive_regime(case, V=None):
+    V = V or case["lm"]["V"]
     eos = _norm_eos(case["eos"], V)
     T = case["max_iters"]
     if T is None:
@@ -204,15 +224,24 @@ def _search_cases(tier, regime="any", batch_choices=(None, 1, 2, 3), eos_kinds=(
                                    st.sampled_from([nc, nc + 1, nc + 5])))
         batch = draw(st.sampled_from(sorted(batch_choices, key=lambda b: (b != 2, b is not None, b))))
         conds = draw(st.lists(st.integers(0, C - 1), min_size=batch or 1, max_size=batch or 1))
+        extreme = None
+        if draw(st.sampled_from([0, 0, 0, 0, 1])):
+            # extreme but legal magnitudes: condition rows scaled to logits of up to about +-1e6 (still exact in float32),
+            # i.e. next-token log-probabilities down to about -2e6 and probabilities that round to exactly 1
+            extreme = draw(st.sampled_from([10, 14, 18]))
+            spec["cond"] = [[v * 2 ** extreme for v in row] for row in spec["cond"]]
         if contrast and eos is not None and V >= 2 and draw(st.sampled_from([True, True, False])):
             # one element that wants to stop at once next to one that does not: elements finish at different steps
             e = _norm_eos(eos, V)
             spec["cond"][0][e], spec["cond"][1][e] = 24, -24
             conds[:2] = draw(st.sampled_from([[0, 1], [1, 0]]))
         case = {"lm": spec, "width": width, "eos": eos, "finish_all": finish_all, "max_iters": max_iters,
-                "batch": batch, "conds": conds, "pad_value": draw(st.sampled_from([-1, 0, 3, -100]))}
+                "batch": batch, "conds": conds, "pad_value": draw(st.sampled_from([-1, 0, 3, -100, 2 ** 40, -2 ** 40]))}
         if batch is None and conds == [0]:
             case["no_init"] = draw(st.booleans())
+        if extreme is not None:
+            case["extreme"] = extreme
+        case["cond_layout"] = draw(st.sampled_from(["contiguous", "offset", "strided", "contiguous"]))
         return case
 
     return _s()
@@ -243,6 +272,12 @@ def _classes_for(case, extra):
             cl.add("width_beyond_exhaustive")
     if case["lm"]["M"] >= 2:
         cl.add("stateful_lm")
+    if case.get("extreme") is not None:
+        cl.add("extreme_logits")
+    if case.get("cond_layout", "contiguous") != "contiguous" and not case.get("no_init"):
+        cl.add("initial_state_layout_" + case["cond_layout"])
+    if abs(case.get("pad_value", -1)) > 2 ** 32:
+        cl.add("huge_pad_value")
     return cl
 
 
@@ -277,9 +312,11 @@ def _validity_check(case):
 subcheck("C04", "validity", lambda tier: _search_cases(tier, "any"), 1200, 30000,
          doc="generated (HashLM with state only in prev, width, eos incl. negative index, finish_all_paths, max_iters 0..4|5 or "
              "unset, batch None/1..3): every finite slot in range, stops at first eos, distinct, score == pure-Python chain of the "
-             "model, best first, -inf last; full set in the exhaustive regime",
+             "model, best first, -inf last; full set in the exhaustive regime. Also condition rows scaled by 2**10..2**18 (logits up to "
+             "+-1e6, probabilities that round to exactly 0 / 1), pad values +-2**40, the initial state as an offset / strided view",
          required_classes=["width_prunes", "width_beyond_exhaustive", "eos_set", "eos_unset", "finish_all", "finish_first",
-                           "paths_finish_at_different_steps", "stateful_lm", "batch_none", "max_iters_0"])(_validity_check)
+                           "paths_finish_at_different_steps", "stateful_lm", "batch_none", "max_iters_0", "extreme_logits",
+                           "initial_state_layout_offset", "initial_state_layout_strided", "huge_pad_value"])(_validity_check)
 
 subcheck("C04", "exhaustive", lambda tier: _search_cases(tier, "exhaustive"), 500, 10000,
          doc="forced exhaustive regime (eos unset, or eos set with finish_all_paths; max_iters = T; width >= number of complete "
@@ -309,8 +346,9 @@ def _match_lists(a, b, what, tol=1e-4):
     require(len(sa) == len(sb) and all(close(x, y, rel=1e-5, abs_=2e-5) for x, y in zip(sa, sb)),
             what + ": score vectors differ", sa, sb)
     for i, (p, s) in enumerate(a):
-        alone = all(abs(s - s2) > tol for j, s2 in enumerate(sa) if j != i) and \
-            all(abs(s - s2) > tol for j, s2 in enumerate(sb) if j != i)
+        # (tol plus a float32-relative part: with extreme magnitudes the scores themselves are only resolved to ~1e-7 relative)
+        alone = all(abs(s - s2) > tol + 4e-6 * abs(s) for j, s2 in enumerate(sa) if j != i) and \
+            all(abs(s - s2) > tol + 4e-6 * abs(s) for j, s2 in enumerate(sb) if j != i)
         if alone:
             require(b[i][0] == p, what + ": slot %d holds different paths" % i, list(p), list(b[i][0]))
 
@@ -324,27 +362,64 @@ def _independence_cases(tier):
         case = draw(base)
         C = len(case["lm"]["cond"])
         case["partner"] = draw(st.integers(0, C - 1))
+        # call pattern: every run on a module of its own / all runs on one module (and one model object) /
+        # the same with train()-eval() switches in between / the same after a search that died half-way
+        case["pattern"] = draw(st.sampled_from(["fresh", "shared_module", "shared_module_modes", "abandoned_first"]))
         return case
 
     return _s()
 
 
+def _same_results(a, b):
+    return len(a) == len(b) and all(
+        len(x) == len(y) and all(tx == ty and lx == ly and (sx == sy) for (tx, lx, sx), (ty, ly, sy) in zip(x, y))
+        for x, y in zip(a, b))
+
+
 @subcheck("C04", "batch_independence", _independence_cases, 700, 15000,
           doc="element n of a batched search == solo search (batch_size=1 and batch_size unset) of that element == the same element "
-              "searched next to a different partner; finite slots validated in all runs",
-          required_classes=["elements_finish_at_different_steps", "partner_changes_step_count"])
+              "searched next to a different partner; finite slots validated in all runs. Call patterns: each run on a fresh module, "
+              "or all runs on ONE BeamSearch/model object (optionally with train()/eval() switches, optionally after a search that "
+              "was abandoned half-way), the first call repeated at the end and required to return exactly the same",
+          required_classes=["elements_finish_at_different_steps", "partner_changes_step_count", "module_reused",
+                            "train_eval_toggled", "abandoned_search"])
 def _independence_check(case):
+    import torch
+
     cl = set()
     conds = case["conds"]
-    S, elems = run_search(case, conds, case["batch"])
+    pattern = case.get("pattern", "fresh")
+    shared = None
+    toggle = [0]
+    if pattern != "fresh":
+        lm, shared = build_search(case)
+        cl.add("module_reused")
+        if pattern == "abandoned_first":
+            # the model refuses the second step: the search dies inside its loop; the module is then used normally
+            cap, lm.cap = lm.cap, 0
+            try:
+                # (other conditions than the judged calls use, same batch size)
+                shared({"cond": torch.tensor([case["partner"]] * len(conds), dtype=torch.long)}, case["batch"],
+                       max(case["max_iters"] or CAP, 2))
+            except declm.StepCap:
+                cl.add("abandoned_search")
+            lm.cap = cap
+
+    def run(cs, batch):
+        if pattern == "shared_module_modes":
+            toggle[0] += 1
+            shared.train(toggle[0] % 2 == 0)
+            cl.add("train_eval_toggled")
+        return run_search(case, cs, batch, search=shared)
+
+    S, elems = run(conds, case["batch"])
     fin = [validate_element(case, conds[n], S, slots, cl) for n, slots in enumerate(elems)]
-    lens_b = [[L for _, L, _ in slots] for slots in elems]
     solo_steps = set()
     for n in range(len(conds)):
-        S1, e1 = run_search(case, [conds[n]], 1)
+        S1, e1 = run([conds[n]], 1)
         f1 = validate_element(case, conds[n], S1, e1[0], set())
         _match_lists(fin[n], f1, "element %d batched vs batch_size=1" % n)
-        S0, e0 = run_search(case, [conds[n]], None)
+        S0, e0 = run([conds[n]], None)
         f0 = validate_element(case, conds[n], S0, e0[0], set())
         _match_lists(fin[n], f0, "element %d batched vs unbatched" % n)
         solo_steps.add(S1)
@@ -353,16 +428,144 @@ def _independence_check(case):
     if len(solo_steps) >= 2:
         cl.add("elements_finish_at_different_steps")
     # a different partner for element 0
-    Sp, ep = run_search(case, [conds[0], case["partner"]], 2)
+    Sp, ep = run([conds[0], case["partner"]], 2)
     fp = validate_element(case, conds[0], Sp, ep[0], set())
     _match_lists(fin[0], fp, "element 0 next to another partner")
     if Sp != S:
         cl.add("partner_changes_step_count")
+    if shared is not None:
+        # the result of a call must not depend on what the module was used for before
+        S2, elems2 = run(conds, case["batch"])
+        require(S2 == S and _same_results(elems, elems2), "the same call on the same module returns something else the second time",
+                [S2, elems2], [S, elems])
     cl = _classes_for(case, cl)
     return Info(nontrivial=_nontrivial(cl), classes=sorted(cl))
 
 
+# ---------------------------------------------------------------- sizes at implementation thresholds
+
+
+def _large_cases(tier):
+    quick = tier == "quick"
+
+    @st.composite
+    def _s(draw):
+        big = draw(st.sampled_from(["T", "width", "V", "batch"]))
+        kind = draw(st.sampled_from(["pos", "none", "pos", "neg"]))
+        M = draw(st.sampled_from([3, 5, 7, 2]))
+        V = draw(st.sampled_from([3, 2, 4]))
+        T = draw(st.sampled_from([3, 2, 4, 1]))
+        width = draw(st.sampled_from([2, 1, 3, 4]))
+        batch = draw(st.sampled_from([2, None, 1, 3]))
+        if big == "width":
+            width = draw(dl.threshold_sizes(15, 257 if quick else 2049, extra=[1025] if quick else []))
+            # step limits on both sides of the point where the width covers all complete sequences
+            t_full = max(1, int(math.ceil(math.log(width) / math.log(V)))) if V > 1 else 4
+            T = max(1, min(draw(st.sampled_from([t_full, t_full - 1, t_full + 1, t_full + 2])), 11 if V == 2 else 7 if V == 3 else 6))
+            batch = draw(st.sampled_from([None, 1, 2]))
+        elif big == "V":
+            V = draw(dl.threshold_sizes(15, 1025 if quick else 2049))
+            width = draw(st.sampled_from([2, 1, 3, 5, V, V + 1, 17]))
+            T = draw(st.sampled_from([2, 1, 3]))
+        elif big == "batch":
+            batch = draw(dl.threshold_sizes(15, 257 if quick else 1025))
+            T = draw(st.sampled_from([3, 2, 4, 1]))
+        else:
+            T = draw(dl.threshold_sizes(15, 257 if quick else 1025))
+            V = draw(st.sampled_from([2, 3]))
+            batch = draw(st.sampled_from([2, None, 1]))
+        if kind == "none":
+            eos = None
+        elif kind == "pos":
+            eos = draw(st.sampled_from([0, V - 1, V // 2, min(16, V - 1)]))
+        else:
+            eos = draw(st.sampled_from([-1, -V]))
+        late = None
+        if big == "T" and eos is not None and draw(st.sampled_from([True, True, False])):
+            # a model that counts its steps in its state (mult 1, one state per count) and all but forbids eos before a late
+            # step: in a stationary model a path that ends late is always beaten by the ones that ended early and never survives
+            late = min(T - 1, draw(st.sampled_from([127, 128, 126, 127, 128, 15, 16, 31, 63, 64, 255, 256, 1023, 1024])))
+        return {"big": big, "late_eos": late, "lm_small": {"V": V, "M": M, "mult": draw(st.sampled_from([2, 1, 3])), "C": draw(st.integers(1, 3)),
+                                         "seed": draw(st.integers(0, 2 ** 31 - 1))},
+                "width": width, "eos": eos, "finish_all": draw(st.booleans()), "max_iters": T, "batch": batch,
+                "cond_seed": draw(st.integers(0, 2 ** 31 - 1)), "eos_bias": draw(st.sampled_from([-8, 0, -12, -24, -48, 8, -4])),
+                "pad_value": draw(st.sampled_from([-1, 0, 2 ** 40])),
+                "cond_layout": draw(st.sampled_from(["contiguous", "offset", "strided"]))}
+
+    return _s()
+
+
+@subcheck("C04", "large_search", _large_cases, 320, 3000,
+          doc="BeamSearch with ONE size at an implementation threshold: width (15/16/17 ... 257, 1025; thorough ... 2049), vocabulary "
+              "(... 1025 | 2049), batch (... 257 | 1025) or max_iters (... 129, 257 | 1025); the HashLM table and the per-element "
+              "conditions are expanded from generated seeds (pure function of the case). Same validity predicates on EVERY slot "
+              "(chain by a cached pure-Python mirror, tolerance 4*S*2^-24 relative for long paths), the exhaustive regime when the "
+              "complete sequences number <= 4096, and batched == solo for up to four elements at threshold positions. For long step limits "
+              "also a model that counts its steps in its state and all but forbids eos before a late step (126/127/128, 255/256, ...): "
+              "paths that END late survive in the beam",
+          required_classes=["big_width", "big_V", "big_batch", "big_T", "about_16", "about_64", "about_256", "about_1024",
+                            "width_prunes", "width_beyond_exhaustive", "exhaustive_regime", "solo_compared", "eos_after_127_steps"])
+def _large_check(case):
+    small = dict(case["lm_small"])
+    late = case.get("late_eos")
+    if late is not None:
+        # states never wrap: the state after a path is V + 1 + sum(token + 1)
+        small.update(M=small["V"] + 2 + small["V"] * case["max_iters"] + 1, mult=1)
+    spec = declm.expand_spec(small)
+    V, C = spec["V"], len(spec["cond"])
+    e = _norm_eos(case["eos"], V)
+    if late is not None:
+        for s_ in range(spec["M"]):
+            # (the fastest path adds V to the state per step: no path can end before step late + 1; with V == 2 there is one
+            # token besides eos and every path ends exactly then)
+            spec["table"][s_][e] = -160 if s_ < V + 1 + late * (V if V > 2 else (1 - e) + 1) else 40
+    elif e is not None and case["eos_bias"]:
+        # make the end-of-sequence token rare (or frequent) for condition 0, the opposite for condition 1: long paths, and
+        # elements that finish at different steps
+        for c in range(C):
+            spec["cond"][c][e] += case["eos_bias"] if c % 2 == 0 else -case["eos_bias"]
+    N = case["batch"] or 1
+    conds = dl.lcg_ints(case["cond_seed"], N, 0, C - 1)
+    pylm = declm.PyLM(spec)
+    run_case = dict(case, lm=spec)
+    cl = set()
+    S, elems = run_search(run_case, conds, case["batch"], spec=spec)
+    T = case["max_iters"]
+    require(S <= T, "more sequence positions than max_iters", S, T)
+    rel = max(1e-5, 4 * max(S, 1) * 2.0 ** -24)
+    exhaustive = is_exhaustive_regime(run_case, V) and n_complete(V, e, T) <= 4096
+    fin, steps = [], set()
+    for n, slots in enumerate(elems):
+        f = validate_element(run_case, conds[n], S, slots, cl, spec=spec, chain=pylm.chain, rel=rel)
+        if exhaustive and n < 2:
+            check_exhaustive(run_case, conds[n], f, spec=spec, chain=pylm.chain)
+            cl.add("exhaustive_regime")
+        fin.append(f)
+        steps.add(max(len(p) for p, _ in f))
+        if e is not None and any(len(p) >= 128 and p[-1] == e for p, _ in f):
+            cl.add("eos_after_127_steps")
+    if len(steps) >= 2:
+        cl.add("elements_finish_at_different_steps")
+    if case["batch"] is not None and N >= 2:
+        for n in sorted({0, N - 1, min(N - 1, 15), min(N - 1, 16)})[:4]:
+            S1, e1 = run_search(run_case, [conds[n]], 1, spec=spec)
+            f1 = validate_element(run_case, conds[n], S1, e1[0], set(), spec=spec, chain=pylm.chain, rel=rel)
+            _match_lists(fin[n], f1, "element %d batched vs batch_size=1" % n)
+            cl.add("solo_compared")
+    cl = _classes_for(run_case, cl)
+    cl.discard("batch_%s" % case["batch"])
+    cl.add("big_" + case["big"])
+    size = {"width": case["width"], "V": V, "batch": N, "T": S}[case["big"]]
+    sc = dl.size_class("x", size)
+    if sc:
+        cl.add(sc[2:])
+    return Info(nontrivial=_nontrivial(cl), classes=sorted(cl))
+
+
 # ---------------------------------------------------------------- the step function
+
+
+GARBAGE_IDS = [-1, -7, 1 << 40, -(1 << 62), (1 << 63) - 1]
 
 
 def _advance_cases(tier):
@@ -379,60 +582,96 @@ def _advance_cases(tier):
                              min_size=N, max_size=N))
         y = draw(st.lists(st.lists(st.lists(st.integers(0, max(V - 1, 0)), min_size=Kp, max_size=Kp), min_size=N, max_size=N),
                           min_size=S, max_size=S))
-        lens_kind = draw(st.sampled_from(["none", "full", "mixed"]))
+        lens_kind = draw(st.sampled_from(["none", "full", "mixed", "mixed"]))
         if lens_kind == "none":
             lens = None
         elif lens_kind == "full":
             lens = [[S] * Kp for _ in range(N)]
         else:
             lens = draw(st.lists(st.lists(st.integers(0, S), min_size=Kp, max_size=Kp), min_size=N, max_size=N))
-        return {"N": N, "Kp": Kp, "V": V, "S": S, "width": width, "ext": ext, "prev": prev, "y": y, "lens": lens}
+        case = {"N": N, "Kp": Kp, "V": V, "S": S, "width": width, "ext": ext, "prev": prev, "y": y, "lens": lens}
+        # memory layout of each tensor argument (the values are the same)
+        lay = st.sampled_from(dl.LAYOUT_CHOICES)
+        case["layouts"] = {"ext": draw(lay), "prev": draw(lay), "y": draw(lay), "lens": draw(lay)}
+        # stride-0 (expanded) views where the data is constant along a dimension
+        if lens_kind == "full" and draw(st.booleans()):
+            case["layouts"]["lens"] = "expanded"
+        if Kp >= 2 and draw(st.sampled_from([False, False, True])):
+            case["ext"] = [[list(e[0]) for _ in range(Kp)] for e in ext]
+            case["layouts"]["ext"] = "expanded"
+        # what is stored in y_prev past a prefix's length is documented as not valid: any id may sit there
+        if lens_kind == "mixed":
+            case["garbage"] = draw(st.sampled_from([None] + GARBAGE_IDS + GARBAGE_IDS))
+        case["dtype"] = draw(st.sampled_from(["float32", "float32", "float64"]))
+        # extreme but exactly representable magnitudes (scores k/4 with |k| up to 40 * 2**16)
+        case["scale"] = draw(st.sampled_from([0, 0, 0, 8, 16]))
+        return case
 
     return _s()
 
 
-@subcheck("C04", "advance", _advance_cases, 1500, 30000,
-          doc="beam_search_advance on dyadic (k/4) scores incl. -inf prefixes, y_prev_lens unset/full/ragged: returned scores == top-width "
-              "of prefix+extension sums (exact), each slot consistent with its source (prefix copied, token appended, length+1, next_src)",
-          required_classes=["ragged_lens", "fills_beyond_candidates", "prunes"])
-def _advance_check(case):
+def _advance_core(case):
     import torch
     from pydrobert.torch.functional import beam_search_advance
 
     N, Kp, V, S, W = case["N"], case["Kp"], case["V"], case["S"], case["width"]
-    ext = torch.tensor(case["ext"], dtype=torch.float32).view(N, Kp, V) / 4
-    prevl = [[NEG_INF if v is None else v / 4 for v in row] for row in case["prev"]]
-    prev = torch.tensor(prevl, dtype=torch.float32).view(N, Kp)
+    lay = case.get("layouts", {})
+    dtype = torch.float64 if case.get("dtype") == "float64" else torch.float32
+    scale = 2 ** case.get("scale", 0)
+    cl = set()
+    ext_l = [[[v * scale for v in r] for r in e] for e in case["ext"]]
+    prevl = [[NEG_INF if v is None else v * scale / 4 for v in row] for row in case["prev"]]
+    if lay.get("ext") == "expanded":
+        ext = (torch.tensor([e[0] for e in ext_l], dtype=dtype).view(N, 1, V) / 4).expand(N, Kp, V)
+        cl.add("layout_expanded")
+    else:
+        ext = dl.relayout(torch.tensor(ext_l, dtype=dtype).view(N, Kp, V) / 4, lay.get("ext", "contiguous"))
+    prev = dl.relayout(torch.tensor(prevl, dtype=dtype).view(N, Kp), lay.get("prev", "contiguous"))
     y = torch.tensor(case["y"], dtype=torch.long).view(S, N, Kp)
-    lens = None if case["lens"] is None else torch.tensor(case["lens"], dtype=torch.long).view(N, Kp)
+    if case.get("garbage") is not None and case["lens"] is not None:
+        for n in range(N):
+            for k in range(Kp):
+                if case["lens"][n][k] < S:
+                    y[case["lens"][n][k]:, n, k] = case["garbage"]
+                    cl.add("garbage_past_prefix_length")
+    y = dl.relayout(y, lay.get("y", "contiguous"))
+    if case["lens"] is None:
+        lens = None
+    elif lay.get("lens") == "expanded":
+        lens = torch.tensor(S, dtype=torch.long).expand(N, Kp)
+        cl.add("layout_expanded")
+    else:
+        lens = dl.relayout(torch.tensor(case["lens"], dtype=torch.long).view(N, Kp), lay.get("lens", "contiguous"))
     y_next, y_next_lens, lp_next, src = beam_search_advance(ext, W, prev, y, lens)
     require(tuple(lp_next.shape) == (N, W) and tuple(y_next_lens.shape) == (N, W) and tuple(src.shape) == (N, W)
             and tuple(y_next.shape[1:]) == (N, W) and y_next.size(0) in (S, S + 1),
             "result shapes", [list(t.shape) for t in (y_next, y_next_lens, lp_next, src)], [N, W])
+    require(lp_next.dtype == dtype, "dtype of the returned scores", str(lp_next.dtype), str(dtype))
     K = min(W, Kp * V)
-    cl = set()
+    lp_l, src_l, len_l = lp_next.tolist(), src.tolist(), y_next_lens.tolist()
+    y_l = y_next.permute(1, 2, 0).tolist()  # [n][k][t]
     for n in range(N):
-        cand = sorted((prevl[n][k] + case["ext"][n][k][v] / 4 for k in range(Kp) for v in range(V)), reverse=True)
-        got = [float(x) for x in lp_next[n]]
+        cand = sorted((prevl[n][k] + ext_l[n][k][v] / 4 for k in range(Kp) for v in range(V)), reverse=True)
+        got = lp_l[n]
         require(got[:K] == cand[:K], "scores are not the top-width candidate sums, best first", got, cand[:K])
         require(all(g == NEG_INF for g in got[K:]), "slots beyond the possible candidates must carry -inf", got[K:], "-inf")
         used = set()
         for k in range(K):
-            s = int(src[n, k])
-            L = int(y_next_lens[n, k])
+            s = int(src_l[n][k])
+            L = int(len_l[n][k])
             require(0 <= s < Kp, "next_src out of range", s, Kp)
             Lp = S if case["lens"] is None else case["lens"][n][s]
             require(L == Lp + 1, "length of slot %d is not its source's length + 1" % k, L, Lp + 1)
             require(L <= y_next.size(0), "length exceeds the returned tensor", L, y_next.size(0))
-            toks = [int(v) for v in y_next[:L, n, k]]
+            toks = y_l[n][k][:L]
             src_toks = [case["y"][t][n][s] for t in range(Lp)]
             require(toks[:-1] == src_toks, "prefix of slot %d is not its source path" % k, toks, src_toks)
             v = toks[-1]
             require(0 <= v < V, "appended token out of range", v, V)
             require((s, v) not in used, "the same (source, token) candidate was taken twice", [s, v], None)
             used.add((s, v))
-            require(got[k] == prevl[n][s] + case["ext"][n][s][v] / 4, "score of slot %d is not prefix + extension score" % k,
-                    got[k], prevl[n][s] + case["ext"][n][s][v] / 4)
+            require(got[k] == prevl[n][s] + ext_l[n][s][v] / 4, "score of slot %d is not prefix + extension score" % k,
+                    got[k], prevl[n][s] + ext_l[n][s][v] / 4)
     if case["lens"] is not None and any(len(set(r)) > 1 for r in case["lens"]):
         cl.add("ragged_lens")
     if W > Kp * V:
@@ -441,4 +680,99 @@ def _advance_check(case):
         cl.add("prunes")
     if any(v is None for r in case["prev"] for v in r):
         cl.add("neg_inf_prefix")
-    return Info(nontrivial=("prunes" in cl or "fills_beyond_candidates" in cl) and Kp >= 2, classes=sorted(cl))
+    cl.update(dl.layout_classes(lay.values()))
+    if case.get("dtype") == "float64":
+        cl.add("float64_scores")
+    if case.get("scale"):
+        cl.add("extreme_scores")
+    return cl
+
+
+@subcheck("C04", "advance", _advance_cases, 1500, 30000,
+          doc="beam_search_advance on dyadic (k/4) scores incl. -inf prefixes, y_prev_lens unset/full/ragged: returned scores == top-width "
+              "of prefix+extension sums (exact), each slot consistent with its source (prefix copied, token appended, length+1, next_src). "
+              "Every tensor argument also as an offset / column-slice / transposed / strided / expanded (stride 0) view; out-of-range and "
+              "huge ids stored past the prefix lengths; float64 scores; scores scaled by 2**8 / 2**16",
+          required_classes=["ragged_lens", "fills_beyond_candidates", "prunes", "layout_offset", "layout_transposed",
+                            "layout_col_slice", "layout_strided", "layout_expanded", "garbage_past_prefix_length",
+                            "float64_scores", "extreme_scores"])
+def _advance_check(case):
+    cl = _advance_core(case)
+    return Info(nontrivial=("prunes" in cl or "fills_beyond_candidates" in cl) and case["Kp"] >= 2, classes=sorted(cl))
+
+
+def _advance_large_cases(tier):
+    hi = 257 if tier == "quick" else 1025
+
+    @st.composite
+    def _s(draw):
+        big = draw(st.sampled_from(["Kp", "V", "width", "N", "S"]))
+        small = st.integers(1, 3)
+        N, Kp, V, S = draw(st.integers(1, 2)), draw(small), draw(small), draw(st.integers(0, 3))
+        if big == "Kp":
+            Kp = draw(dl.threshold_sizes(15, hi))
+            width = draw(st.sampled_from([Kp, 1, Kp - 1, Kp + 1, Kp * V, Kp * V + 2, 16, 17, 2 * Kp + 1]))
+        elif big == "V":
+            V = draw(dl.threshold_sizes(15, 4 * hi + 21))
+            width = draw(st.sampled_from([V, 1, 2, V - 1, V + 1, Kp * V + 1, 16, 17]))
+        elif big == "width":
+            width = draw(dl.threshold_sizes(15, 4 * hi + 21, extra=[1025]))
+            Kp = draw(st.integers(3, 40))
+            # candidates (old width * V) on both sides of the width
+            V = draw(st.sampled_from([-(-width // Kp), max(1, width // Kp), -(-width // Kp) + 1, draw(st.integers(3, 40))]))
+            if draw(st.sampled_from([False, False, True])):
+                # just past 1024 with enough candidates to fill the beam
+                width, Kp = 1025, draw(st.integers(26, 40))
+                V = -(-1025 // Kp) + draw(st.sampled_from([0, 1]))
+        elif big == "N":
+            N = draw(dl.threshold_sizes(15, hi))
+            width = draw(st.integers(1, Kp * V + 1))
+        else:
+            S = draw(dl.threshold_sizes(15, hi))
+            width = draw(st.integers(1, Kp * V + 1))
+        lay = st.sampled_from(dl.LAYOUT_CHOICES)
+        return {"big": big, "N": N, "Kp": Kp, "V": V, "S": S, "width": max(1, width), "seed": draw(st.integers(0, 2 ** 31 - 1)),
+                "lens_kind": draw(st.sampled_from(["mixed", "none", "full", "mixed"])),
+                "neg_inf_every": draw(st.sampled_from([0, 5, 2])),
+                "layouts": {"ext": draw(lay), "prev": draw(lay), "y": draw(lay), "lens": draw(lay)},
+                "dtype": draw(st.sampled_from(["float32", "float64"])), "garbage": draw(st.sampled_from([None, -1, 1 << 40]))}
+
+    return _s()
+
+
+def expand_advance_case(c):
+    """The full step-function case as a pure function of the small one (64-bit LCG streams)."""
+    N, Kp, V, S = c["N"], c["Kp"], c["V"], c["S"]
+    e = dl.lcg_ints(c["seed"], N * Kp * V, -400, 0)
+    ext = [[e[(n * Kp + k) * V:(n * Kp + k + 1) * V] for k in range(Kp)] for n in range(N)]
+    p = dl.lcg_ints(c["seed"] + 1, N * Kp, -400, 0)
+    ev = c["neg_inf_every"]
+    prev = [[None if (ev and (n * Kp + k) % ev == ev - 1) else p[n * Kp + k] for k in range(Kp)] for n in range(N)]
+    yy = dl.lcg_ints(c["seed"] + 2, S * N * Kp, 0, V - 1)
+    y = [[yy[(t * N + n) * Kp:(t * N + n + 1) * Kp] for n in range(N)] for t in range(S)]
+    if c["lens_kind"] == "none":
+        lens = None
+    elif c["lens_kind"] == "full":
+        lens = [[S] * Kp for _ in range(N)]
+    else:
+        ll = dl.lcg_ints(c["seed"] + 3, N * Kp, 0, S)
+        lens = [ll[n * Kp:(n + 1) * Kp] for n in range(N)]
+    return {"N": N, "Kp": Kp, "V": V, "S": S, "width": c["width"], "ext": ext, "prev": prev, "y": y, "lens": lens,
+            "layouts": c["layouts"], "dtype": c["dtype"], "garbage": c["garbage"], "scale": 0}
+
+
+@subcheck("C04", "advance_large", _advance_large_cases, 500, 5000,
+          doc="beam_search_advance with ONE dimension at an implementation-threshold size (old width, V, width, N or S in "
+              "15/16/17 ... 255/256/257 (quick), ... 1023/1024/1025/2049 (V and width; all in the thorough tier)); the tensors are "
+              "expanded from a generated seed by a 64-bit LCG (pure function of the case); same exact oracle as `advance`, every slot checked",
+          required_classes=["big_Kp", "big_V", "big_width", "big_N", "big_S", "about_16", "about_64", "about_256", "prunes",
+                            "fills_beyond_candidates", "ragged_lens"])
+def _advance_large_check(case):
+    full = expand_advance_case(case)
+    cl = _advance_core(full)
+    cl.add("big_" + case["big"])
+    size = {"Kp": case["Kp"], "V": case["V"], "width": case["width"], "N": case["N"], "S": case["S"]}[case["big"]]
+    sc = dl.size_class("x", size)
+    if sc:
+        cl.add(sc[2:])
+    return Info(nontrivial=("prunes" in cl or "fills_beyond_candidates" in cl) and case["Kp"] >= 2, classes=sorted(cl))
